@@ -116,6 +116,26 @@ fn t_mac_verify(i: &Input) -> Outcome {
     Ok(())
 }
 
+/// n authentic messages in a row pushed by libsodium and pulled by dryoc on one stream: no pull may panic.
+fn t_stream_long_run(i: &Input) -> Outcome {
+    let (k, header) = (i.arr::<32>("k"), i.arr::<24>("header"));
+    let n = i.num("n") as usize;
+    let mut sl = so::stream_init_pull(&header, &k); // same state as a push stream with this header
+    let mut st = ss::State::new();
+    ss::crypto_secretstream_xchacha20poly1305_init_pull(&mut st, &header, &k);
+    for j in 0..n {
+        let m = [j as u8; 3];
+        let c = so::stream_push(&mut sl, &m, None, 0);
+        let mut out = vec![0u8; 3];
+        let mut tag = 0u8;
+        let r = ss::crypto_secretstream_xchacha20poly1305_pull(&mut st, &mut out, &mut tag, &c, None);
+        if r.is_err() || out != m {
+            return fail("authentic message accepted", format!("{:?}", r.is_ok()), format!("message #{} of a long in-order run", j));
+        }
+    }
+    Ok(())
+}
+
 /// Object-API MAC verification with a Vec-backed MAC of ANY length: must never panic, and must accept only the MAC of
 /// exactly the right length (a correct MAC followed by extra bytes, or a prefix of it, is a different value).
 fn t_mac_verify_object(i: &Input) -> Outcome {
@@ -204,6 +224,7 @@ pub const C04: Registry = &[
     ("sign_verify_detached", t_sign_verify_detached),
     ("mac_verify", t_mac_verify),
     ("mac_verify_object", t_mac_verify_object),
+    ("stream_long_run", t_stream_long_run),
     ("stream_tag_object", t_stream_tag_object),
     ("pwhash_str_verify", t_pwhash_str_verify),
     ("pwhash_str_needs_rehash", t_pwhash_str_needs_rehash),
@@ -389,6 +410,9 @@ pub fn c04(ctx: &mut Ctx) -> Search {
             ctx.run("mac_verify", Input::new().b("k", &k).b("mac", &mac).b("x", &x))?;
         }
     }
+
+    // a long run of authentic messages on one stream (the 32-bit counter's low byte passes 0xff)
+    ctx.run("stream_long_run", Input::new().b("k", &k).b("header", &header).u("n", 300))?;
 
     // object-API MAC verification with Vec-backed MACs of every length
     for len in 0..=70u64 {
